@@ -14,7 +14,7 @@ from vlib import log
 
 ASSUME = ["the oracle is trivial (the worker recovered a panic / the process died abnormally / a generous time budget was exceeded); TLA+ contributes the systematic input spaces (Gen_Matrix, Gen_Mut, Gen_Prog) and the totality of the design model, the verdict itself is an exploration",
           "a run that ends through os.Exit with a diagnosed failure (exit 17, 255) or a parse error is a permitted outcome",
-          "time budget per input: 20 s for inputs of at most a few hundred tokens (the unchanged tree needs milliseconds); scale series: 300 s per point, and time(4n)/time(n) (minimum of up to 3 runs, only judged when the larger point needs more than 2 s) must stay below 8 (quadratic would be 16)"]
+          "time budget per input: 20 s for inputs of at most a few hundred tokens (the unchanged tree needs milliseconds); scale series: 60 s (quick) / 300 s (thorough) per point, a series stops at its first abnormal point, and time(4n)/time(n) (minimum of up to 3 runs, only judged when the larger point needs more than 2 s) must stay below 8 (quadratic would be 16)"]
 
 TOK = {"comma": ",", "colon": ":", "lbracket": "[", "rbracket": "]", "plus": "+", "minus": "-", "star": "*", "slash": "/", "lparen": "(", "rparen": ")",
        "quote": '"', "squote": "'", "bignum": "99999999999999999999999999", "hexjunk": "0xZZ", "ident": "foo_bar", "reg": "EAX", "opcode": "MOV",
@@ -156,11 +156,14 @@ def run(ctx):
     openf = _F().open
     known_series = {"equ_doubling": "D_EquReevalExponential"}
     known_hit = {}
+    point_budget = 60.0 if quick else 300.0       # (the unchanged tree needs at most a few seconds for the largest point)
     def timed(src, reps=1):
         best, st = None, "ok"
         for _ in range(reps):
-            r = ctx.run_jobs([{"id": 1, "src": src, "notrace": True, "maxout": 1}], sequential=True, per_job_timeout=300.0)[1][-1]
+            r = ctx.run_jobs([{"id": 1, "src": src, "notrace": True, "maxout": 1}], sequential=True, per_job_timeout=point_budget)[1][-1]
             t, st = r.get("us", 0) / 1e6, r.get("status")
+            if st == "exit" and r.get("exit") not in (17, 255, 1):
+                st = "died"          # the process ended by itself, but not through one of gosk's own diagnosed exits (runtime fatal error)
             best = t if best is None else min(best, t)
             if st not in ("ok", "parse") or t < 0.5:
                 break            # fast enough not to matter / abnormal: no need to repeat
@@ -186,6 +189,7 @@ def run(ctx):
                 break
             if st not in ("ok", "parse") and not (st == "exit" and ts[-1][1] < 60):
                 viol.append({"id": 0, "tags": ["C13"], "why": "abnormal termination in scale series %s n=%d: %s" % (name, n, st), "at": "scale", "i": 0, "obs": [], "bits": 0, "kind": "scale", "src": name})
+                break          # (larger points of a series that already failed would only cost their time budget again)
         series[name] = ts
         for (n1, t1, _), (n2, t2, _) in zip(ts, ts[1:]):
             if known_series.get(name) in openf:
@@ -198,7 +202,21 @@ def run(ctx):
 
     # (d') beyond the scale C13 quantifies over (10^5 tokens = depth 50 000 assembles): parenthesis depth 100 000 exhausts the
     # goroutine stack inside the generated recursive-descent parser (listed finding; reported again if it ever ends differently)
-    t, st = timed("\tDD\t" + "(" * 100000 + "1" + ")" * 100000 + "\n")
+    # the exponential re-evaluation of EQU chains in reverse dependency order, at two sizes that take fractions of a second
+    # (listed finding D_EquReevalExponential): 18 and 22 levels - linear behaviour would give a ratio of about 1.2
+    mkequ = lambda lv: "".join("E%d\tEQU\tE%d+E%d\n" % (i, i + 1, i + 1) for i in range(lv)) + "E%d\tEQU\t1\n\tDD\tE0\n" % lv
+    t18, s18 = timed(mkequ(18), reps=2)
+    t22, s22 = timed(mkequ(22), reps=2)
+    series["equ_levels_18_22"] = [(18, round(t18 or 0, 3), s18), (22, round(t22 or 0, 3), s22)]
+    if s22 not in ("ok", "parse", "exit") or ((t22 or 0) > 0.3 and (t22 or 0) > 6 * max(t18 or 0, 0.001)):
+        if "D_EquReevalExponential" in openf:
+            known_hit["D_EquReevalExponential"] = known_hit.get("D_EquReevalExponential", 0) + 1
+        else:
+            viol.append({"id": 0, "tags": ["C13"], "why": "EQU chain of 22 levels takes %.2fs, 18 levels %.2fs (%s)" % (t22 or 0, t18 or 0, s22), "at": "scale", "i": 0, "obs": [], "bits": 0, "kind": "scale", "src": "equ_levels_18_22"})
+    if all(x[2] in ("ok", "parse") for x in series.get("nesting", [])):
+        t, st = timed("\tDD\t" + "(" * 100000 + "1" + ")" * 100000 + "\n")
+    else:
+        t, st = 0, "ok"       # the nesting series itself already failed and was reported
     series["nesting_100000"] = [(100000, round(t or 0, 3), st)]
     if st not in ("ok", "parse") and not (st == "exit" and (t or 0) < 60):
         if "D_ParserStackDepth" in openf:
